@@ -12,7 +12,7 @@ def declared_bk(ctx, sides_pre, assumptions=(), extra=None):
 
 def model(ctx, noa=3, nva=3, nob=0, nvb=0, seed=1, fock="gen", bkn=None,
           restricted=False, spincons=False, eri="gen", roles=True, tabs=None,
-          unitary=None, umat=None, oracle="none", gs=None):
+          unitary=None, umat=None, oracle="none", gs=None, scn=None):
     names = ctx.names
     def nid(n):
         return names.get(n, 0) if roles else 0
@@ -26,7 +26,7 @@ def model(ctx, noa=3, nva=3, nob=0, nvb=0, seed=1, fock="gen", bkn=None,
             "rV": nid(tensor_names.eri),
             "rU": names.get(unitary, 0) if unitary else 0,
             "umat": umat if umat is not None else [],
-            "oracle": oracle,
+            "oracle": oracle, "defs": [], "scn": list(scn or []),
             "gs": gs if gs is not None else {"K": 0},
             "bkn": list(bkn) if bkn is not None else [0] * nn,
             "tabs": tabs if tabs is not None else [[] for _ in range(nn)]}
